@@ -64,10 +64,10 @@ def _ckey(session, case):
     return session + "|" + json.dumps(case, sort_keys=True)
 
 
-def _spawn(cases, x64):
+def _spawn(cases, x64, late=False):
     env = dict(os.environ)
-    env.update(JAX_ENABLE_X64="1" if x64 else "0", JAX_PLATFORMS="cpu", PYTHONPATH=core.REPO + ":" + core.VERIF,
-               PYTHONHASHSEED="0", PYTHONDONTWRITEBYTECODE="1")
+    env.update(JAX_ENABLE_X64="1" if (x64 and not late) else "0", C19_LATE_X64="1" if late else "0", JAX_PLATFORMS="cpu",
+               PYTHONPATH=core.REPO + ":" + core.VERIF, PYTHONHASHSEED="0", PYTHONDONTWRITEBYTECODE="1")
     return subprocess.Popen([sys.executable, "-m", "harness.props.c19_worker"], stdin=subprocess.PIPE, stdout=subprocess.PIPE,
                             stderr=subprocess.PIPE, text=True, env=env, cwd=core.VERIF)
 
@@ -314,7 +314,33 @@ def t_faithful(D, N, L, dt, mode):
     return True, f"D={D}: analytic single-mode errors {worst}"
 
 
-TESTS = dict(coef=t_coef, stepper=t_stepper, precision=t_precision, stiff_grid=t_stiff, faithful=t_faithful)
+def t_faithful_late(D, N, L, dt, mode):
+    """double precision enabled with jax.config.update AFTER `import exponax`: the same analytic single-mode steps must be accurate to
+    double-precision rounding (nothing evaluated at import time may freeze float32)"""
+    p = _spawn([analytic_case(D, N, L, dt, mode)], True, late=True)
+    try:
+        so, se = p.communicate(json.dumps([analytic_case(D, N, L, dt, mode)]), timeout=900)
+    except subprocess.TimeoutExpired:
+        p.kill()
+        return False, "late-x64 worker timed out"
+    if c19_worker.MARK not in (so or ""):
+        return False, f"late-x64 worker produced no result: {(se or '')[-400:]}"
+    res = json.loads(so.split(c19_worker.MARK)[1])
+    if res["session"] != "float64":
+        return False, f"jax.config.update('jax_enable_x64', True) after the import gives a {res['session']} session"
+    r = res["results"][0]
+    if "error" in r:
+        return False, f"late-x64 session: {r['error']}"
+    for n, e in r["errs"].items():
+        if r["out_dtypes"][n] != "float64":
+            return False, f"late-x64 session: {n} step returns {r['out_dtypes'][n]}"
+        if not e <= 1e-12:
+            return False, (f"x64 enabled after `import exponax`: one {n} step (D={D}, N={N}) of a single Fourier mode deviates from the analytic solution "
+                           f"by {e:.3e} (allowed 1e-12): part of the computation silently runs in single precision")
+    return True, f"late x64 D={D}: errors {r['errs']}"
+
+
+TESTS = dict(coef=t_coef, stepper=t_stepper, precision=t_precision, stiff_grid=t_stiff, faithful=t_faithful, faithful_late=t_faithful_late)
 
 
 # ------------------------------------------------------------------------------------------------
@@ -352,6 +378,8 @@ def plan(ctx):
     for p in (0, 1, 2, 3, 4):
         for dt in ((1.0, 0.01, 10.0, 0.37) if deep else (1.0, 0.01)):
             out.append(("coef", dict(p=p, dt=dt, zs=zs)))
+    for D, N in ((1, 48), (2, 24)) + (((3, 12),) if deep else ()):
+        out.append(("faithful_late", dict(D=D, N=N, L=2.0, dt=0.1, mode=3)))
     for D, N in ((1, 48), (2, 24), (3, 12)):
         out.append(("faithful", dict(D=D, N=N, L=1.0, dt=0.1, mode=3)))
         for _ in range(3 if deep else 1):
@@ -408,6 +436,8 @@ def prefetch(tests, par):
             cases.append(coef_case(**p))
         elif t == "faithful":
             cases.append(analytic_case(**p))
+        elif t == "faithful_late":
+            continue
         elif t in ("stepper", "precision"):
             cases.append(step_case(stiff=False, **p))
         else:
